@@ -221,3 +221,58 @@ V("C14", "sample-shape-dropped", "fire", "C14.R3", "constituents sampled without
   ("src/pyhf/probability.py", "return self.tv.stitch([p.sample(sample_shape) for p in self])", "return self.tv.stitch([p.sample() for p in self])"))
 V("C14", "flipped-comparison", "silent", "", "value <= samples",
   (CA, "self.samples >= value, tensorlib.astensor(1), tensorlib.astensor(0)", "value <= self.samples, tensorlib.astensor(1), tensorlib.astensor(0)"))
+
+# ------------------------------------------------------------------ C05
+MLE = "src/pyhf/infer/mle.py"
+MIX = "src/pyhf/optimize/mixins.py"
+COM = "src/pyhf/optimize/common.py"
+V("C05", "fixed-pair-shifted", "fire", "C05.R1", "fixed value taken from the wrong position",
+  (MLE, "        (index, init)\n        for index, (init, is_fixed) in enumerate(zip(init_pars, fixed_params))", "        (index, init_pars[index - 1])\n        for index, (init, is_fixed) in enumerate(zip(init_pars, fixed_params))"))
+V("C05", "poi-flag-not-set", "fire", "C05.R2", "POI flag not set in fixed_poi_fit",
+  (MLE, "    fixed_params[pdf.config.poi_index] = True\n", ""))
+V("C05", "poi-inplace", "fire", "C05.R2", "fixed_poi_fit writes into the caller's lists",
+  (MLE, "    init_pars = [*(init_pars or pdf.config.suggested_init())]\n    fixed_params = [*(fixed_params or pdf.config.suggested_fixed())]", "    init_pars = init_pars or pdf.config.suggested_init()\n    fixed_params = fixed_params or pdf.config.suggested_fixed()"))
+V("C05", "bounds-not-filtered", "fire", "C05.R3", "stitch arm passes unfiltered bounds",
+  (COM, "        variable_bounds = [par_bounds[i] for i in variable_idx]", "        variable_bounds = par_bounds"))
+V("C05", "scipy-bounds-dropped", "fire", "C05.R3", "scipy minimiser called without bounds",
+  ("src/pyhf/optimize/opt_scipy.py", "            jac=do_grad,\n            bounds=bounds,\n", "            jac=do_grad,\n"))
+V("C05", "scipy-constraints-dropped", "fire", "C05.R3", "scipy minimiser called without the equality constraints",
+  ("src/pyhf/optimize/opt_scipy.py", "            constraints=constraints,\n", ""))
+V("C05", "minuit-limits-dropped", "fire", "C05.R3", "minuit limits not set",
+  ("src/pyhf/optimize/opt_minuit.py", "        minuit.limits = init_bounds\n", ""))
+V("C05", "tflow-nostitch", "fire", "C05.R4", "tensorflow plain arm bypasses the stitcher",
+  ("src/pyhf/optimize/opt_tflow.py", "            pars = tensorlib.astensor(pars)\n            constrained_pars = stitch_pars(pars)\n            return objective(constrained_pars, data, pdf)[0]", "            pars = tensorlib.astensor(pars)\n            return objective(pars, data, pdf)[0]"))
+V("C05", "twice-nll-factor", "fire", "C05.R4", "objective is -log L instead of -2 log L",
+  (MLE, "    return -2 * pdf.logpdf(pars, data)", "    return -1 * pdf.logpdf(pars, data)"))
+V("C05", "jax-stitch-order", "fire", "C05.R4", "jax stitches [pars, fixed]",
+  ("src/pyhf/optimize/opt_jax.py", "            [tensorlib.astensor(fixed_values, dtype='float'), pars]", "            [pars, tensorlib.astensor(fixed_values, dtype='float')]"))
+V("C05", "postprocess-no-stitch", "fire", "C05.R5", "fitted parameters not stitched back",
+  (MIX, "        fitted_pars = stitch_pars(tensorlib.astensor(fitresult.x))", "        fitted_pars = tensorlib.astensor(fitresult.x)"))
+V("C05", "layout-swapped", "fire", "C05.R5", "objective value returned before the correlations",
+  (MIX, "        if return_correlations:\n            _returns.append(result.corr)\n        if return_fitted_val:\n            _returns.append(result.fun)", "        if return_fitted_val:\n            _returns.append(result.fun)\n        if return_correlations:\n            _returns.append(result.corr)"))
+V("C05", "success-unchecked", "fire", "C05.R6", "success flag no longer checked",
+  (MIX, "        try:\n            assert result.success\n        except AssertionError:\n            log.error(result, exc_info=True)\n            raise exceptions.FailedMinimization(result)\n        return result", "        if not result.success:\n            log.error(result, exc_info=True)\n        return result"))
+V("C05", "success-if-form", "silent", "", "assert/try replaced by an explicit if/raise",
+  (MIX, "        try:\n            assert result.success\n        except AssertionError:\n            log.error(result, exc_info=True)\n            raise exceptions.FailedMinimization(result)\n        return result", "        if not result.success:\n            log.error(result, exc_info=True)\n            raise exceptions.FailedMinimization(result)\n        return result"))
+V("C05", "fixed-vals-loop", "silent", "", "fixed_vals comprehension rewritten with indexing",
+  (MLE, "        (index, init)\n        for index, (init, is_fixed) in enumerate(zip(init_pars, fixed_params))\n        if is_fixed", "        (index, init_pars[index])\n        for index, is_fixed in enumerate(fixed_params)\n        if is_fixed"))
+
+# ------------------------------------------------------------------ C13
+V("C13", "torch-grad-wrt-stitched", "fire", "C13.R1", "torch gradient taken w.r.t. the stitched vector",
+  ("src/pyhf/optimize/opt_pytorch.py", "grad = torch.autograd.grad(constr_nll, pars)[0]", "grad = torch.autograd.grad(constr_nll, constrained_pars)[0]"))
+V("C13", "torch-requires-grad-late", "fire", "C13.R1", "requires_grad set after stitching",
+  ("src/pyhf/optimize/opt_pytorch.py", "            pars.requires_grad = True\n            constrained_pars = stitch_pars(pars)\n", "            constrained_pars = stitch_pars(pars)\n            pars.requires_grad = True\n"))
+V("C13", "tf-objective-outside-tape", "fire", "C13.R1", "tf objective evaluated outside the tape",
+  ("src/pyhf/optimize/opt_tflow.py", "                tape.watch(pars)\n                constrained_pars = stitch_pars(pars)\n                constr_nll = objective(constrained_pars, data, pdf)\n", "                tape.watch(pars)\n                constrained_pars = stitch_pars(pars)\n            constr_nll = objective(constrained_pars, data, pdf)\n"))
+V("C13", "tf-watch-missing", "fire", "C13.R1", "tape.watch removed",
+  ("src/pyhf/optimize/opt_tflow.py", "                tape.watch(pars)\n", ""))
+V("C13", "jax-argnums", "fire", "C13.R1", "jax differentiates w.r.t. argument 1",
+  ("src/pyhf/optimize/opt_jax.py", "jax.value_and_grad(_final_objective, argnums=0)", "jax.value_and_grad(_final_objective, argnums=1)"))
+V("C13", "jax-static-fixed-values", "fire", "C13.R1", "fixed values declared static",
+  ("src/pyhf/optimize/opt_jax.py", "jax.value_and_grad(_final_objective, argnums=0), static_argnums=(3, 4, 5, 6, 7)", "jax.value_and_grad(_final_objective, argnums=0), static_argnums=(2, 3, 4, 5, 6, 7)"))
+V("C13", "tolist-in-apply", "fire", "C13.R2", "parameter values converted to python floats in a modifier",
+  ("src/pyhf/modifiers/lumi.py", "        lumis = self.param_viewer.get(pars)\n", "        lumis = tensorlib.astensor(tensorlib.tolist(self.param_viewer.get(pars)))\n"))
+V("C13", "tonumpy-in-constraint", "fire", "C13.R2", "gathered parameters pass through numpy in the constraint",
+  ("src/pyhf/constraints.py", "        normal_means = tensorlib.gather(flat_pars, self.access_field)\n", "        normal_means = tensorlib.astensor(tensorlib.to_numpy(tensorlib.gather(flat_pars, self.access_field)))\n"))
+V("C13", "torch-value-item", "silent", "", "value converted with .item() instead of numpy()[0]",
+  ("src/pyhf/optimize/opt_pytorch.py", "return constr_nll.detach().numpy()[0], grad", "return constr_nll.detach()[0].item(), grad"))
